@@ -403,7 +403,7 @@ def run(rep, only=None):
                NB.Registry.add_usage, NB.Registry.remove_usage, NM.WaterNetworkModel.remove_node, NM.WaterNetworkModel.remove_link, NM.WaterNetworkModel.get_links_for_node,
                NB.Link.start_node.fset, NB.Link.end_node.fset, EL.Pump.speed_pattern_name.fset, EL.HeadPump.pump_curve_name.fset, EL.Tank.vol_curve_name.fset)
     rep.bound('name pools: 3 nodes, 2 links, 2 patterns, 3 curves; 22 operations; start models: empty, base (reservoir + junction with two demands on two patterns + curves), rich (+ tank with volume curve, head pump with speed pattern, pipe, source, second demand with its own pattern, time control, rule with OR / AND condition reading the tank and the pump)')
-    rep.bound('quick: all histories of length 1 over all operations and of length 2 per operation family (node / link / registry); thorough: length 2 over all operations, length 3 per family from the rich model')
+    rep.bound('quick: all histories of length 1 over all operations and of length 2 per operation family (node / link / registry); thorough: length 2 over all operations from both models, length 3 over the node and the registry operation families from the rich model')
     tasks = []
     for start in ('empty', 'base', 'rich'):
         tasks.append(('hist-%s-1-all' % start, check_histories, (start, 1, 'all')))
@@ -417,7 +417,8 @@ def run(rep, only=None):
         for start in ('base', 'rich'):
             for part in range(14):
                 tasks.append(('hist-%s-2-all.%d' % (start, part), check_histories, (start, 2, 'all', part, 14)))
-        for fam, nparts in (('node-ops', 14), ('registry-ops', 14), ('link-ops', 42)):
+        # (length 3 over the link operations from the rich model does not finish within 50 minutes per task on this machine: not claimed)
+        for fam, nparts in (('node-ops', 14), ('registry-ops', 14)):
             for part in range(nparts):
                 tasks.append(('hist-rich-3-%s.%d' % (fam, part), check_histories, ('rich', 3, fam, part, nparts)))
     run_parallel(rep, tasks)
